@@ -435,6 +435,23 @@ Definition read_geometry (numtab : list N) (e : et) : option geom_view :=
     end
   end.
 
+(* ---- the guard of C05_load_is_read, as a computation: no checkSource call of this geometry renamed a
+   source (the sources Geometry.load ends with are the sources FloatSource.load produced) *)
+Definition sdata_eqb (a b : sdata) : bool :=
+  match a, b with
+  | DFloat x, DFloat y => list_eqb N.eqb x y
+  | DWords x, DWords y => list_eqb tok_eqb x y
+  | _, _ => false
+  end.
+Definition source_view_eqb (a b : source_view) : bool :=
+  N.eqb (s_uid a) (s_uid b) && opt_eqb aval_eqb (s_id a) (s_id b) && N.eqb (s_kind a) (s_kind b) &&
+  comps_eqb (s_comps a) (s_comps b) && Nat.eqb (s_rows a) (s_rows b) && sdata_eqb (s_data a) (s_data b).
+Definition geom_fits (numtab : list N) (e : et) : bool :=
+  match load_geometry numtab e, omapM (load_source numtab) (efindall_path [a_mesh; a_source] e) with
+  | Ok g, Ok srcs => list_eqb source_view_eqb (g_sources g) srcs
+  | _, _ => true
+  end.
+
 (* ------------------------------------------------------------------ libraries by id *)
 
 (* IndexedList.get: the last object appended with that id *)
@@ -1063,6 +1080,10 @@ Fixpoint load_animation (numtab : list N) (d : list (atom * source_view)) (e : e
 Definition lib_elems (libtag item : atom) (root : et) : list et :=
   flat_map (efindall item) (efindall libtag root).
 
+Definition geometry_elems (root : et) : list et :=
+  List.filter (fun g => match efind a_mesh g with Some _ => true | None => false end)
+              (lib_elems a_library_geometries a_geometry root).
+
 Record doc := mkDoc { d_images : list V; d_effects : list V; d_materials : list V; d_animations : list V; d_geometries : list V;
                       d_controllers : list V; d_lights : list V; d_cameras : list V; d_nodes : list V;
                       d_scenes : list V; d_scene : option N }.
@@ -1091,9 +1112,7 @@ Section Document.
     obind (omapM (load_material efflib) (lib_elems a_library_materials a_material root)) (fun mats =>
     obind (omapM (fun a => omap (fun p => Vl [Vaview (fst p); Vdict (snd p)]) (load_animation numtab [] a))
                  (lib_elems a_library_animations a_animation root)) (fun anims =>
-    obind (omapM geometry_loader
-                 (List.filter (fun g => match efind a_mesh g with Some _ => true | None => false end)
-                              (lib_elems a_library_geometries a_geometry root))) (fun geoms =>
+    obind (omapM geometry_loader (geometry_elems root)) (fun geoms =>
     obind (omapM (load_controller numtab) (lib_elems a_library_controllers a_controller root)) (fun ctrls0 =>
     let ctrls := flat_map (fun o => match o with Some c => [c] | None => [] end) ctrls0 in
     obind (omapM (load_light numtab) (lib_elems a_library_lights a_light root)) (fun lights =>
